@@ -69,12 +69,13 @@ Wait(s) == [s EXCEPT !.wait = TRUE]
 (* Line splitter.  RFC 9112 2.2: lines end with CRLF; a recipient MAY accept a
    bare LF and ignore preceding CR (lax mode only).  A line whose content is
    longer than `limit` never completes inside the window pos .. pos+limit+1.   *)
-RECURSIVE NextCRLF(_, _, _, _)
-NextCRLF(q, pos, from, hi) ==
+RECURSIVE NextCRLFk(_, _, _, _, _)
+NextCRLFk(q, pos, from, hi, k) ==       \* gives up (0) after 16 bare LFs: only used to NAME a deviation
     LET i == FirstIn(q, from, hi, LAMBDA b : b = LF)
-    IN IF i = 0 THEN 0
+    IN IF i = 0 \/ k = 0 THEN 0
        ELSE IF i > pos /\ q[i - 1] = CR THEN i
-       ELSE NextCRLF(q, pos, i + 1, hi)
+       ELSE NextCRLFk(q, pos, i + 1, hi, k - 1)
+NextCRLF(q, pos, from, hi) == NextCRLFk(q, pos, from, hi, 16)
 
 TakeLine(q, pos, n, limit, lax) ==
     LET hi == Min2(n, pos + limit + 1)
